@@ -112,7 +112,16 @@ def execute_products(case):
 
 
 def check_decode(fn, s, cls, expected, what):
-    """-> failure detail or None"""
+    """-> failure detail or None.  Every string is decoded twice: the verdict may not depend on
+    whether the same string was seen before in this process."""
+    first = _check_decode(fn, s, cls, expected, what)
+    second = _check_decode(fn, s, cls, expected, what)
+    if first is None and second is not None:
+        return "on the second attempt: " + second
+    return first
+
+
+def _check_decode(fn, s, cls, expected, what):
     try:
         got = fn(s)
     except ValueError:
